@@ -62,7 +62,9 @@ func decodeString(f reflect.Type, t reflect.Type, data any) (any, error) {
 	if t.Kind() == reflect.String && f.Kind() != reflect.String {
 		return fmt.Sprintf("%v", data), nil
 	}
-	if f.Kind() == reflect.Ptr {
+	// Dereference pointers to strings only: any other pointer (including a pointer to a nil
+	// pointer, which would otherwise surface as a typed nil) is left to mapstructure
+	if f.Kind() == reflect.Ptr && f.Elem().Kind() == reflect.String {
 		f = f.Elem()
 		data = reflect.ValueOf(data).Elem().Interface()
 	}
